@@ -573,10 +573,22 @@ func (cl *Cluster) Close() {
 func (cl *Cluster) Expire() {
 	if cl.Clock != nil {
 		cl.Clock.Advance(time.Hour)
-		return
+	} else {
+		for _, c := range cl.Clients {
+			c.PD.skewMs.Add(time.Hour.Milliseconds())
+		}
 	}
-	for _, c := range cl.Clients {
-		c.PD.skewMs.Add(time.Hour.Milliseconds())
+	for i := range cl.Clients {
+		cl.refreshClock(i)
+	}
+}
+
+// refreshClock lets a client's oracle notice the new time (its low-resolution timestamp, which the lock
+// resolver uses to judge expiry, only moves when a timestamp is fetched).
+func (cl *Cluster) refreshClock(client int) {
+	c := cl.Clients[client]
+	if !c.Net.Dead() {
+		_, _ = c.Store.CurrentTimestamp(oracle.GlobalTxnScope)
 	}
 }
 
@@ -586,9 +598,10 @@ func (cl *Cluster) Expire() {
 func (cl *Cluster) ExpireFor(client int) {
 	if cl.Clock != nil {
 		cl.Clock.Advance(time.Hour)
-		return
+	} else {
+		cl.Clients[client%len(cl.Clients)].PD.skewMs.Add(time.Hour.Milliseconds())
 	}
-	cl.Clients[client%len(cl.Clients)].PD.skewMs.Add(time.Hour.Milliseconds())
+	cl.refreshClock(client % len(cl.Clients))
 }
 
 // MaxIssued returns the largest timestamp any client has been granted so far.
